@@ -12,7 +12,7 @@ use crate::reference::{
 use crate::rng::{mix, Rng};
 use crate::run::{run_case, Ctor, Draw, Item, IterHist, Load, RKind, RunOut, StaticHist, StaticItem};
 
-pub const N_FAULT_KINDS: usize = 26;
+pub const N_FAULT_KINDS: usize = 27;
 pub const FAULT_NAMES: [&str; N_FAULT_KINDS] = [
     "-",
     "F1_driver_error_in_constructor",
@@ -40,6 +40,7 @@ pub const FAULT_NAMES: [&str; N_FAULT_KINDS] = [
     "F23_caller_continues_after_error_item",
     "F24_second_device_with_other_layout_on_same_test",
     "F25_static_rows_requested_before_dynamic_run",
+    "F26_device_lists_an_output_the_test_does_not_know",
 ];
 
 #[derive(Clone, Debug)]
@@ -222,6 +223,7 @@ fn knobs_for(prop: Prop, sub: u64, tier: Tier, rng: &mut Rng) -> Knobs {
             k.w_in_bits = 2;
             k.w_bound_expr = 4;
             k.shadow_outputs = true;
+            k.ghost_let = sub % 4 == 1;
             k.header_swarm = false;
             k.w_layout = [4, 2, 0, 0];
             k.w_beh_tagged = 0;
@@ -258,6 +260,20 @@ fn knobs_for(prop: Prop, sub: u64, tier: Tier, rng: &mut Rng) -> Knobs {
             // the protocol holds for every row that is yielded, also after error items
             k.continue_pct = 15;
             k.layout_may_miss_read = sub % 9 == 4;
+            if sub % 10 == 3 {
+                // draws decide when the run ends; the caller polls again after `None`
+                k.random = true;
+                k.trailing_random_while_pct = 50;
+                k.after_none_pct = 70;
+                k.stop_early_pct = 0;
+            }
+            if sub % 10 == 7 {
+                // an input-only device: no output, bidirectional or virtual signal at all
+                k.n_out = (0, 0);
+                k.n_bidir = (0, 0);
+                k.n_virtual = (0, 0);
+                k.override_pct = 80;
+            }
         }
         Prop::C03 => {
             k.n_out = (1, 4);
@@ -296,6 +312,7 @@ fn knobs_for(prop: Prop, sub: u64, tier: Tier, rng: &mut Rng) -> Knobs {
             k.w_beh_table = 2;
             k.w_layout = [2, 3, 2, 0];
             k.shadow_outputs = true;
+            k.ghost_let = sub % 4 == 1;
             k.layout_may_miss_read = sub % 5 == 0;
             k.header_swarm = sub % 3 == 0;
             k.swarm(rng);
@@ -466,6 +483,7 @@ fn knobs_for(prop: Prop, sub: u64, tier: Tier, rng: &mut Rng) -> Knobs {
             }
             k.swarm(rng);
             k.layout_may_miss_read = sub % 7 == 1;
+            k.virtual_const_fail_pct = 4;
             if sub % 4 == 2 {
                 // "whatever the driver returns": errors and layout deviations in the dynamic
                 // runs, a caller that keeps going
@@ -484,6 +502,8 @@ fn knobs_for(prop: Prop, sub: u64, tier: Tier, rng: &mut Rng) -> Knobs {
             k.w_while = 2;
             k.w_let = 6;
             k.widths = vec![1, 4, 8, 16, 32, 62];
+            k.dup_random_entry = true;
+            k.trailing_random_while_pct = 10;
             k.swarm(rng);
         }
         Prop::C18 => {
@@ -817,6 +837,16 @@ pub fn generate(prop: Prop, run_seed: u64, tier: Tier) -> Case {
             });
         }
     }
+    // a device that lists, in every answer, an output the test does not know in place of one
+    // it knows (same number of entries as the test has outputs)
+    if matches!(prop, Prop::C03 | Prop::C04) && !case.duts[0].layout.is_empty() && rng.chance(1, 12) {
+        let p = rng.usize(case.duts[0].layout.len());
+        case.duts[0].faults.push(Fault {
+            at_call: 0,
+            kind: FaultKind::PermanentForeign(p),
+            id: 0,
+        });
+    }
     match prop {
         Prop::C15 => c15_shape(&mut case, &mut rng),
         Prop::C17 => c17_shape(&mut case, &mut rng),
@@ -1064,8 +1094,15 @@ fn count_faults(case: &Case, out: &RunOut, f: &mut [u32; N_FAULT_KINDS]) {
                     FaultKind::SubstName(_) | FaultKind::SubstBits(_) | FaultKind::SubstKind(_) => {
                         f[9] += 1
                     }
-                    FaultKind::Value(..) => {}
+                    FaultKind::Value(..) | FaultKind::PermanentForeign(_) => {}
                 }
+            }
+            if k == 0 {
+                f[26] += dut
+                    .faults
+                    .iter()
+                    .filter(|x| matches!(x.kind, FaultKind::PermanentForeign(_)))
+                    .count() as u32;
             }
             if let ModelAnswer::Ok(ans) = &c.answer {
                 for (sid, v) in ans {
@@ -1603,12 +1640,19 @@ fn c17_iter(case: &Case, out: &RunOut, k: usize, r: &RefRun) -> Option<Violation
         });
     }
     if v.is_none() {
-        v = lockstep(out, it, r, case.duts[k].overrides_write, &|w| !matches!(w, What::Env)).map(|m| {
-            Violation {
+        // (from the first row whose entries made two draws on, which entry got which value
+        // depends on the order in which a row's entries are evaluated, which no property
+        // fixes: the draw accounting above still covers those rows, the values do not)
+        v = lockstep(out, it, r, case.duts[k].overrides_write, &|w| !matches!(w, What::Env))
+            .filter(|m| match (m.step, r.multi_draw_step) {
+                (Some(s), Some(md)) => s < md,
+                (None, Some(_)) => false,
+                _ => true,
+            })
+            .map(|m| Violation {
                 oracle: "C17.literal",
                 detail: format!("{:?}: {}", m.what, m.detail),
-            }
-        });
+            });
     }
     v
 }
